@@ -173,7 +173,7 @@ ADDED = {
  "C19": "Also: an altered selection in Image.subregion is a violation (shared C02.a/b).",
  "C20": "Also (level other): index kinds are not mixed (matrix positions index matrix-ordered tables, Cartesian positions Cartesian-ordered vectors); CoordinateSystem agrees with the table (shared C01.b).",
 }
-COMMON = " Every property additionally requires that no function of its anchor modules writes process-wide mutable state (module-/class-level containers), except memos keyed injectively on everything the value depends on and never modified in place."
+COMMON = " Obligations are three-valued: a violation needs positive evidence (an extracted value that differs, a dataflow fact, a near miss of a recognised idiom); code that is outside the recognised idioms ends in ANALYSIS-ERROR (exit 2), not in a violation (DESIGN.md 7.9). Every property additionally requires that no function of its anchor modules writes process-wide mutable state (module-/class-level containers), except memos keyed injectively on everything the value depends on and never modified in place."
 
 NOT_YET = {}
 
